@@ -267,7 +267,7 @@ func parent() {
 	for i := 0; i < nFree; i++ {
 		jobs = append(jobs, histJob{1000 + i, "free"})
 	}
-	for i := 0; i < 3; i++ { // deterministic minimal reproductions of the genuine findings
+	for i := 0; i < 4; i++ { // deterministic minimal reproductions of the genuine findings
 		jobs = append(jobs, histJob{directedBase + i, "step"})
 	}
 	scratch := c.Scratch()
